@@ -302,6 +302,17 @@ Theorem served_signbytes_are_those_of_the_stored_message :
 Proof. exact served_signbytes_are_recomputed. Qed.
 Print Assumptions served_signbytes_are_those_of_the_stored_message.
 
+(** The bytes to sign stored with (and served for) a skyway batch are renewed at estimate election
+    and, for every open batch of the chain, at compass activation; nothing else writes them. *)
+Theorem batch_signbytes_follow_estimate_and_compass :
+  Gen.C05.batch_refresh_skip_conditions = ["batch.ChainReferenceID!=chainReferenceID"; "bytes.Equal(bts,batch.BytesToSign)"]%string /\
+  Gen.C05.batch_refresh_rewrites_bytes = true /\ Gen.C05.batch_refresh_reads_all_open_batches = true /\
+  Gen.C05.batch_refresh_on_compass_activation = true /\ Gen.C05.batch_estimate_election_rewrites_bytes = true /\
+  Gen.C05.batch_bytes_to_sign_writes =
+    ["UpdateBatchGasEstimate:entity.BytesToSign=bts"; "refreshOpenBatchCheckpoints:batch.BytesToSign=bts"]%string.
+Proof. exact batch_bytes_follow_the_compass. Qed.
+Print Assumptions batch_signbytes_follow_estimate_and_compass.
+
 Theorem batch_queue_model_is_of_current_source :
   Gen.C05.batch_id_counter_key_expr = "consensusBatchQueueIDCounterKey"%string /\
   Gen.C05.id_counter_keys_distinct = true /\ Gen.C05.batch_put_stages_only = true /\
